@@ -31,7 +31,7 @@ from vf.lib_C05_world import brief, clear_all_memo, okind, outcome, same_outcome
 
 ID = "C05"
 LEVEL = "exploration"
-BUDGET_S = {"quick": 26.0, "thorough": 420.0}
+BUDGET_S = {"quick": 24.0, "thorough": 420.0}
 RULE = ("a case is a block of random histories of one family (state / indexed / hist / prof); a history builds a world, "
         "makes reads, then alternates one mutation with a re-read of every earlier read on the live objects and on a "
         "freshly built twin. One evaluation = one live-vs-twin comparison of a read. Non-trivial = the read had been made "
@@ -296,6 +296,7 @@ def run_state_history(ctx, flavour, hid):
     H.live = W.build_world(H.models, H.descs, H.links_pool, H.links_active, H.with_dc, H.registered)
     H.probe = Probe(H.live.dc.hub) if H.with_dc else None
     H.mutlog = []
+    H.touch = {}
     H.poisoned = set()
     ctx.count("histories:state:" + flavour)
     ctx.count("histories")
@@ -513,6 +514,7 @@ def perform(H, mut):
         ctx.count("state_mutation_raised:%s:%s" % (mut["op"], type(e).__name__))
         poison(H, k)
         return True
+    record_touch(H, mut)
     try:
         twin = twin_of(H)
     except Exception as e:
@@ -591,11 +593,26 @@ def verify(H, reads, twin, mut, during):
         sweep_nodes(H, twin, mut, during)
 
 
+def memo_observable():
+    """True when the to_mask memo dictionaries can be looked at (diagnosis aid; a refactoring may remove them)."""
+    stack = [W.SubsetState]
+    while stack:
+        cls = stack.pop()
+        if hasattr(cls.__dict__.get("to_mask"), "__memoize_cache"):
+            return True
+        stack.extend(cls.__subclasses__())
+    return False
+
+
 def sweep_nodes(H, twin, mut, during):
-    """Full-mask comparison of every node of every live state with the twin's node, so that a stale layer that is
-    hidden at the root (e.g. under an `and` with an empty sibling) is attributed to the mutation that caused it."""
+    """Comparison of every node of every live state with the twin's node, so that a stale layer that is hidden at the
+    root (e.g. under an `and` with an empty sibling) is attributed to the mutation that caused it and not to a later
+    one that merely reveals it.  Every node is evaluated on the full mask; in addition every memo entry that belongs to
+    the node (whatever view or calling convention created it) is compared with the twin's node for that view - or, when
+    the memo dictionaries are not observable, the node is evaluated under all three calling conventions."""
     ctx = H.ctx
     tag = mut["kind"] + (":during_broadcast" if during else "")
+    observable = memo_observable()
     for k, st in enumerate(H.live.states):
         if k in H.poisoned:
             continue
@@ -604,12 +621,22 @@ def sweep_nodes(H, twin, mut, during):
             bad = None
             n = 0
             for (path, ln), (_, tn) in zip(W.walk(st), W.walk(twin.states[k])):
-                lo = outcome(lambda: ln.to_mask(ld, view=None))
                 to = outcome(lambda: tn.to_mask(td, view=None))
                 n += 1
-                if not same_outcome(lo, to):
-                    bad = (lo, to)
+                for lo in node_outcomes(ln, ld, None, not observable):
+                    if not same_outcome(lo, to):
+                        bad = (lo, to)
+                        break
+                if bad:
                     break
+            if bad is None and observable:
+                try:
+                    hidden = memo_stale_paths(st, twin.states[k], ld, td)
+                except Exception:
+                    hidden = set()
+                if hidden:
+                    ctx.count("stale_memo_entries_found_by_sweep_only")
+                    bad = (("ok", np.array("stale memo entry")), ("ok", np.array("fresh")))
             ctx.evaluation(None, False, n=n)
             ctx.count("node_masks_compared:" + tag, n)
             if bad is not None:
@@ -669,14 +696,51 @@ def culprit_nodes(live_state, twin_state, live_data, twin_data, view):
     out = []
     for p, s in stale_at.items():
         if s and not any(stale_at[q] for q in stale_at if len(q) > len(p) and q[:len(p)] == p):
-            out.append(cls_at[p])
+            out.append((p, cls_at[p]))
     return out
 
 
+MOVABLE = ("AndState", "OrState", "XorState", "InvertState", "RangeSubsetState", "RoiSubsetState")
+
+
+def can_change(mut, q, cls_q):
+    """Can the state mutation `mut` (at node path p) have changed the mask of the node at path q (class cls_q)?
+    Yes for the node itself and its ancestors; for descendants only when a subtree was replaced or when move_to is
+    handed down to a node that implements it (memoized leaves do not move)."""
+    p, q = tuple(mut["path"]), tuple(q)
+    if len(q) <= len(p):
+        return p[:len(q)] == q
+    if q[:len(p)] != p:
+        return False
+    if mut.get("vkind") in ("state", "states"):
+        return True
+    return mut["op"] == "move_to" and cls_q in MOVABLE
+
+
+STATE_OPS = ("setter", "move_to", "roi_edit")
+
+
+def record_touch(H, mut):
+    """Remember, per node of the mutated state, the last mutation that could have changed its mask."""
+    k, p = mut["s"], tuple(mut["path"])
+    t = H.touch.setdefault(k, {})
+    if mut.get("vkind") in ("state", "states"):      # a subtree was replaced: its nodes are new objects
+        for q in [q for q in t if len(q) > len(p) and q[:len(p)] == p]:
+            del t[q]
+    fam = W.family(mut["node"])
+    for q, node in W.walk(H.live.states[k]):
+        if can_change(mut, q, type(node).__name__):
+            t[q] = (mut["kind"], fam)
+
+
 def stale(H, r, twin, mut, during, lo, to):
+    """Report a stale result.  Each minimal stale node is attributed to the current mutation when that mutation can
+    have changed its mask (same state and related path; any data / link mutation); otherwise to the last earlier
+    mutation that touched the node (its stale cache entry had stayed invisible until now)."""
     ctx = H.ctx
-    sig = {"kind": "stale", "read": READ_FAMILY[r["k"]], "mutation": mut["kind"],
-           "mutated": mutated_family(H, mut, r), "during_broadcast": bool(during), "live": okind(lo), "twin": okind(to)}
+    base = {"kind": "stale", "read": READ_FAMILY[r["k"]], "during_broadcast": bool(during), "live": okind(lo),
+            "twin": okind(to)}
+    current = (mut["kind"], mutated_family(H, mut, r))
     if r.get("s") is not None:
         view = r.get("view") if r["k"] == "mask" else None
         try:
@@ -685,20 +749,36 @@ def stale(H, r, twin, mut, during, lo, to):
         except TypeError:   # unhashable/odd view passed by keyword and positionally: fall back to the full mask
             cul = culprit_nodes(H.live.states[r["s"]], twin.states[r["s"]], H.live.datas[r["d"]], twin.datas[r["d"]],
                                 None)
-        fams = sorted(set(W.family(c) for c in cul)) or ["none"]
+        groups = {}
+        for path, cls in cul:
+            if mut["op"] in STATE_OPS:
+                touches = mut["s"] == r["s"] and can_change(mut, path, cls)
+            else:
+                touches = True
+            who = current
+            if not touches:
+                earlier = H.touch.get(r["s"], {}).get(tuple(path))
+                if earlier is not None:
+                    who = earlier
+                    ctx.count("stale_node_attributed_to_earlier_mutation")
+            groups.setdefault((who[0], who[1], W.family(cls)), []).append(cls)
+        if not groups:
+            groups[(current[0], current[1], "none")] = []
     else:
-        cul, fams = [], ["no_state"]
+        cul, groups = [], {(current[0], current[1], "no_state"): []}
     clear_all_memo()
+    H.touch.clear()    # every memo entry is fresh again
     if r.get("synthetic"):
         healed = not culprit_nodes(H.live.states[r["s"]], twin.states[r["s"]], H.live.datas[r["d"]],
                                    twin.datas[r["d"]], None)
     else:
         healed = same_outcome(exec_read(H.live, r), to)
-    sig["cause"] = "to_mask_memo" if healed else "not_memo"
+    cause = "to_mask_memo" if healed else "not_memo"
     detail = {"read": describe_read(r), "live": brief(lo), "twin": brief(to), "before_mutation": brief(r["last"]),
-              "culprit_classes": cul, "mutation": {k: v for k, v in mut.items()}, "history": describe_history(H)}
-    for f in fams:
-        ctx.violation(dict(sig, culprit=f), detail)
+              "culprit_nodes": [[list(p), c] for p, c in cul], "mutation": {k: v for k, v in mut.items()},
+              "history": describe_history(H)}
+    for (kind, mutated, fam) in groups:
+        ctx.violation(dict(base, mutation=kind, mutated=mutated, culprit=fam, cause=cause), detail)
     ctx.count("stale_results")
     if not healed and r.get("s") is not None:
         poison(H, r["s"])
